@@ -770,6 +770,10 @@ opLoop:
 	rc.mu.Lock()
 	wireFindings := append([]finding(nil), rc.findings...)
 	idsSeen, posAcks, maxAck, dones, sumIds, sumAck := rc.idsSeen, rc.posAcks, rc.maxAck, rc.dones, rc.sumIds, rc.sumAck
+	if ended == "wedged" && rc.lastN <= maxCount {
+		// in-range calls were refused although the ids to acknowledge fit
+		ended = fmt.Sprintf("in-range calls fail without sending although the last reply had only %d ids", rc.lastN)
+	}
 	logHead := rc.tailLocked(4)
 	rc.mu.Unlock()
 
